@@ -8,6 +8,8 @@ import (
 
 	"github.com/codelaboratoryltd/bng/pkg/allocator"
 
+	"github.com/codelaboratoryltd/bng/pkg/simrt"
+
 	"verif/harness/sim"
 )
 
@@ -71,7 +73,10 @@ func c12GenPool(r *sim.Rand, cs *sim.Case, n int) {
 	nsub := r.Range(2, 6)
 	for i := 0; i < n; i++ {
 		s := int64(r.N(nsub))
-		switch r.Weighted(10, 5, 4, 1) {
+		switch r.Weighted(10, 5, 4, 1, 3) {
+		case 4:
+			// two overlapping requests for one subscriber (a retransmission), one of the two saves failing
+			cs.Ops = append(cs.Ops, sim.Op{K: "alloc2", A: []int64{s, int64(r.N(3))}})
 		case 0:
 			cs.Ops = append(cs.Ops, sim.Op{K: "alloc", A: []int64{s}})
 		case 1:
@@ -123,6 +128,38 @@ func c12RunPool(c *sim.Ctx) {
 		case "json":
 			c12CheckStoreJSON(c, "pool", fs.inner, subs)
 			c12CheckIPJSON(c, "pool", pa.VerifC12Inner(), subs)
+		case "alloc2":
+			s := c12sub(op.Arg(0))
+			preMem, preRec := mem(s), rec(s)
+			if k := c12mod(op.Arg(1), 3); k > 0 {
+				fs.failIn = k
+			}
+			var errs [2]error
+			var ts []*simrt.Task
+			for k := 0; k < 2; k++ {
+				k := k
+				ts = append(ts, c.S.Spawn(fmt.Sprintf("pool-alloc-%d", k), nil, func() {
+					_, errs[k] = pa.Allocate(ctx, s, "02:00:00:00:12:0"+s[1:])
+				}))
+			}
+			c.S.Join(ts...)
+			c.OpsDone += 2
+			c.S.Logf("pool alloc2 %s -> err=%v err=%v", s, errs[0] != nil, errs[1] != nil)
+			if preMem != preRec {
+				c.S.Probe("storefail_skipped_disagreed_before")
+			} else if m, r := mem(s), rec(s); m != r {
+				detail := "differ"
+				if m == "" {
+					detail = "memory-absent-store-present"
+				} else if r == "" {
+					detail = "memory-present-store-absent"
+				}
+				c.Fail("store-failure-agreement", "storefail/pool/alloc-overlapping/"+detail,
+					"two overlapping PoolAllocator.Allocate(%s) calls returned (%v, %v); before them memory=%q store=%q, after both Lookup answers %q but the store record says %q",
+					s, errs[0], errs[1], preMem, preRec, m, r)
+			} else if errs[0] != nil || errs[1] != nil {
+				c.S.Probe("storefail_checked_pool_alloc_overlapping")
+			}
 		case "alloc", "release":
 			s := c12sub(op.Arg(0))
 			preMem, preRec := mem(s), rec(s)
